@@ -50,7 +50,7 @@ def split_cases(text):
 
 def run_script(exe, args, script, env=None):
     try:
-        r = subprocess.run(["timeout", "-s", "KILL", "120", str(exe)] + args, input=script.encode(), stdout=subprocess.PIPE, stderr=subprocess.PIPE, timeout=200, env=env)
+        r = subprocess.run(["timeout", "-s", "KILL", "10", str(exe)] + args, input=script.encode(), stdout=subprocess.PIPE, stderr=subprocess.PIPE, timeout=40, env=env)
     except subprocess.TimeoutExpired:
         return -9, "", "TIMEOUT (hang)"
     return r.returncode, r.stdout.decode(errors="replace"), r.stderr.decode(errors="replace")
@@ -61,11 +61,13 @@ def noshape(lines):
 def minimise(case, fails):
     """greedy delta: drop one line at a time while the failure persists"""
     cur = list(case)
-    changed = True
-    while changed and len(cur) > 1:
+    changed = True; budget = 40
+    while changed and len(cur) > 1 and budget > 0:
         changed = False
         for i in range(len(cur) - 1, -1, -1):
             cand = cur[:i] + cur[i + 1:]
+            budget -= 1
+            if budget <= 0: break
             if cand and fails(cand):
                 cur = cand; changed = True
     return cur
@@ -112,13 +114,26 @@ def run(chk):
     for part, a, b in pmap(work, parts):
         ia, ib = split_cases(a[1]), split_cases(b[1])
         if a[0] != 0 or len(ia) != len(part):
-            # find the crashing case by running cases one by one
-            for c in part:
+            # find the crashing / hanging case: output is line buffered, so it is the last case that started (try it and its neighbour first)
+            if len(chk.violations) >= 3:
+                continue
+            k = max(0, len(ia) - 1)
+            order = [part[i] for i in (k, k + 1) if i < len(part)] + [c for i, c in enumerate(part) if i not in (k, k + 1)][:40]
+            for c in order:
                 sc = "reset\n" + "\n".join(c) + "\n"
                 ra = run_script(impl / "h_set", [], sc, env=SAN_ENV)
                 if ra[0] != 0:
-                    mc = minimise(c, lambda cand: run_script(impl / "h_set", [], "reset\n" + "\n".join(cand) + "\n", env=SAN_ENV)[0] != 0)
-                    chk.violation("set.c harness aborted (exit %d) on an operation sequence: %s" % (ra[0], ra[2][-400:]), "\n".join(mc), "crash")
+                    hang = ra[0] in (-9, 137, -137)
+                    # a hang costs the full time limit per attempt: shrink only by halving in that case
+                    if hang:
+                        mc = list(c)
+                        while len(mc) > 2:
+                            half = mc[:len(mc) // 2 + 1]
+                            if run_script(impl / "h_set", [], "reset\n" + "\n".join(half) + "\n", env=SAN_ENV)[0] != 0: mc = half
+                            else: break
+                    else:
+                        mc = minimise(c, lambda cand: run_script(impl / "h_set", [], "reset\n" + "\n".join(cand) + "\n", env=SAN_ENV)[0] != 0)
+                    chk.violation("set.c harness %s (exit %d) on an operation sequence: %s" % ("did not terminate within 10 s" if hang else "aborted", ra[0], ra[2][-400:]), "\n".join(mc), "crash")
                     break
             continue
         for c, xa, xb in zip(part, ia, ib):
